@@ -173,7 +173,7 @@ def r3(ctx, R):
 
 
 def r4(ctx, R):
-    R.rule("C05.R4", "USE traversal is cycle-cut and derived types expose inherited members", floor=2, confirmed=2)
+    R.rule("C05.R4", "USE traversal is cycle-cut; derived types expose inherited members, transitively (parent resolved first, its full member list copied)", floor=4, confirmed=4)
     # cycle cut = C20.R1 instance on get_use_tree
     from .c20 import call_guard, LinkFields
 
@@ -195,6 +195,13 @@ def r4(ctx, R):
             R.ok("C05.R4", h.short, "inherited members included", loc(h, h.node))
         else:
             R.violation("C05.R4", h.short, "inherited members included", loc(h, h.node), "Type.get_children omits the components inherited through EXTENDS: a%inherited_component does not resolve")
+    from .shared import inherited_member_sites
+
+    for f, node, ok, what, why in inherited_member_sites(ctx):
+        if ok:
+            R.ok("C05.R4", f.short, what, loc(f, node))
+        else:
+            R.violation("C05.R4", f.short, what, loc(f, node), why)
 
 
 def r5(ctx, R):
